@@ -56,6 +56,7 @@ type SObs struct {
 	DefErr     []SErr   `json:"default_errors,omitempty"` // top-level error (one, or members if multi-error)
 	MultiErrs  []SErr   `json:"multi_errors,omitempty"`
 	PtrBad     []string `json:"pointer_violations,omitempty"` // direct C12 oracle on the Go side
+	ModeMix    string   `json:"mode_mix,omitempty"`           // FailFast()+MultiErrors() together: verdict unlike FailFast() alone
 	Leaks      []string `json:"leaks,omitempty"`              // direct C19 oracle on the Go side
 	Reasons    []string `json:"reasons,omitempty"`
 	Panics     []string `json:"panics,omitempty"`
@@ -273,6 +274,9 @@ func runSchemaCase(c *SCase) SObs {
 	o.Failfast = classOf(fErr, fpn)
 	mErr, mp := visit(openapi3.MultiErrors())
 	o.Multi = classOf(mErr, mp)
+	if xErr, xp := visit(openapi3.FailFast(), openapi3.MultiErrors()); classOf(xErr, xp) != o.Failfast {
+		o.ModeMix = fmt.Sprintf("fail-fast verdict %d, fail-fast with multi-error verdict %d", o.Failfast, classOf(xErr, xp))
+	}
 	if len(opts) == 0 {
 		var m bool
 		p := catchPanic(func() { m = s.IsMatching(deepCopyJSON(val)) })
@@ -728,10 +732,21 @@ func init() {
 		}
 		return nil
 	}))
+	// ... and one whose validator returns a schema error that quotes the value but carries no reason text
+	openapi3.DefineStringFormatValidator("x-noreason", openapi3.NewCallbackValidator(func(v string) error {
+		if len(v) > 0 && v[0] >= '0' && v[0] <= '9' {
+			return nil
+		}
+		return &openapi3.SchemaError{Value: v, SchemaField: "format"}
+	}))
 	runners["C01"] = schemaRunner("C01", SchemaGenOpts{Hostile: true},
 		"directed keyword/boundary table + seeded random schemas (depth<=3) with values generated towards the schema then mutated; non-trivial = schema has at least one keyword beyond type; distinct by JSON of (schema,value)", nil)
 	runners["C12"] = schemaRunner("C12", SchemaGenOpts{Hostile: true, Formats: true},
 		"as C01 plus formats and legal-but-unusual schemas; every returned schema error is checked against the value (pointer + quoted value) on the Go side and against the model's error list", func(c *SCase, o *SObs, meta *Meta, idx int) {
+			if o.ModeMix != "" {
+				meta.GoViolation = append(meta.GoViolation, map[string]any{"signature": "verdict-depends-on-mode:failfast+multierrors", "cases": []any{c}, "go_observation": o,
+					"judgement": "FailFast() and MultiErrors() together: " + o.ModeMix})
+			}
 			if len(o.PtrBad) > 0 {
 				sig := "pointer:" + strings.Join(o.PtrBad, ";")
 				meta.GoViolation = append(meta.GoViolation, map[string]any{"signature": sig, "cases": []any{c}, "go_observation": o,
